@@ -354,6 +354,24 @@ def run_job(job):
                 res.cover("functions", case.cls)
                 res.nt(case.expr)
                 res.sample({"expr": case.expr, "cell": cells[0]}, cap=4)
+                # the same call inside WHERE has the same value: `F(..) === value` keeps the probe entry, `!==` drops it
+                if case.expect[0] == "text" and rng.random() < 0.3 and cells[0] != "" and not cells[0].startswith("-"):
+                    try:
+                        lit = q(cells[0])
+                    except ValueError:
+                        continue
+                    for op, want_rows in (("===", ["probe"]), ("!==", [])):
+                        qw = "name from d where %s %s %s into list" % (case.expr, op, lit)
+                        rw = runner.run([qw], cwd=w, home=home)
+                        res.ev()
+                        if rw.verdict != "ok":
+                            continue
+                        if rw.rc != 0 or rw.err or rw.rows() != want_rows:
+                            res.viol("%s printed %r in the select list, but `where %s %s %s` returns %s (status %s, stderr %r)" % (
+                                case.expr, cells[0], case.expr, op, lit, rw.rows(), rw.rc, rw.err[:100]), {"query": qw, "result": rw.brief()})
+                            break
+                    else:
+                        res.count("function_values_checked_in_where")
         # functions applied to column values of generated entries (names as argument strings)
         nd = os.path.join(w, "n")
         os.mkdir(nd)
@@ -431,6 +449,24 @@ def run_job(job):
             if ok:
                 res.cover("functions_on_columns", expr)
                 res.nt("col|%s|%s" % (expr, ",".join(names)))
+                # the same function over the column inside WHERE selects exactly the entries that show the value
+                shown = {}
+                for nm, cell in r.rows(2):
+                    shown.setdefault(cell, []).append(nm)
+                val = rng.choice(sorted(shown))
+                if val != "" and not val.startswith("-") and not isinstance(ref(shown[val][0], os.lstat(os.path.join(nd, shown[val][0]))), tuple):
+                    try:
+                        qw = "name from n where %s === %s into list" % (expr, q(val))
+                    except ValueError:
+                        continue
+                    rw = runner.run([qw], cwd=w, home=home)
+                    res.ev()
+                    if rw.verdict == "ok":
+                        if rw.rc != 0 or rw.err or sorted(rw.rows()) != sorted(shown[val]):
+                            res.viol("`%s`: returns %s, the entries showing that value are %s (status %s, stderr %r)" % (
+                                qw, sorted(rw.rows())[:4], sorted(shown[val])[:4], rw.rc, rw.err[:100]), {"query": qw, "result": rw.brief()})
+                        else:
+                            res.count("function_values_checked_in_where")
     finally:
         runner.rm_scratch(sc)
     return res
